@@ -23,7 +23,7 @@ CANARIES = [
 QUICK_CANARIES = 2
 
 REQS = [{"path": "/ok"}, {"path": "/nope"}, {"path": "/getonly", "method": "POST"}, {"path": "/raise_http"},
-        {"path": "/return_http"}, {"path": "/boom"}, {"path": "/redir"}, {"path": "/nb"}]
+        {"path": "/return_http"}, {"path": "/boom"}, {"path": "/redir"}, {"path": "/nb"}, {"path": "/noct"}]
 
 
 def build(pc, E, canary=None):
